@@ -521,8 +521,10 @@ theorem elab_rejects_write_to_repeated_swizzle {Γ : Env} {dbg : Bool} {o : BinO
     split at hmm
     · simp at hmm
     · simp only [hl, hs] at hmm
-      simp at hmm; obtain ⟨_, rfl⟩ := hmm
-      simp [swizzleVT, hd]
+      split at hmm
+      · simp at hmm
+      · simp at hmm; obtain ⟨_, rfl⟩ := hmm
+        simp [swizzleVT, hd]
 
 /-- a matrix swizzle selects at most four components (`read_matrix_subscript` refuses more), so its type is a scalar or a
     vector of width 2..4 -/
@@ -539,12 +541,76 @@ theorem matrix_swizzle_at_most_four {Γ : Env} {name : String} {e n : IExpr} {τ
       exact ⟨slots, rfl, readMatrix_length x y _ _ _ _ _ slots hs⟩
     · simp at h
 
-/-- **A vector swizzle may name more than four components.**  `float4 v0; v0.xyzwx` is accepted with the five-component
-    type `Vector(float, 5)`, which no declaration can spell: the scalar and vector arms of the `Member` case do not limit
-    the number of slots (the matrix arm does, `matrix_swizzle_at_most_four`). -/
-theorem vector_swizzle_longer_than_four_accepted :
-    (match elabE true { vars := [⟨{}, .vector .float32 4⟩], funcs := [] } (.member (.var 0) "xyzwx") with
-     | .ok (.swizzle (.var 0) [0, 1, 2, 3, 0], τ) => decide (τ = ⟨⟨{}, .vector .float32 5⟩, .rvalue⟩)
+/-- **A swizzle of a scalar or a vector names at most four components** (fix c805c03; formerly the negation witness
+    `vector_swizzle_longer_than_four_accepted`).  Whatever the operand `e` is, if it elaborates to a scalar or a vector then a
+    member name of more than four characters is never accepted: `float4 v; v.xyzwx`, `float f; f.rrrrr`, `(a + b).xxxxx`. -/
+theorem elab_rejects_swizzle_longer_than_four {Γ : Env} {dbg : Bool} {e : SExpr} {name : String} {e' : IExpr} {τ : ETy}
+    (he : elabE dbg Γ e = .ok (e', τ)) (hl : (∃ s, τ.ty.layer = .scalar s) ∨ (∃ s x, τ.ty.layer = .vector s x))
+    (hn : 4 < name.toList.length) : ∀ r, elabE dbg Γ (.member e name) ≠ .ok r := by
+  intro r h
+  obtain ⟨e1, τ1, n1, τ1', h1, hmm, _⟩ := elabE_member_inv h
+  rw [he] at h1; simp at h1; obtain ⟨rfl, rfl⟩ := h1
+  have hs := maxSlots_rows.1
+  have hv := maxSlots_rows.2.1
+  unfold elabMember at hmm
+  split at hmm
+  · simp at hmm
+  · rcases hl with ⟨s, hl⟩ | ⟨s, x, hl⟩
+    · simp only [hl] at hmm
+      split at hmm
+      · rename_i slots hso
+        have := slotsOf_length _ _ hso
+        split at hmm
+        · simp at hmm
+        · omega
+      · simp at hmm
+    · simp only [hl] at hmm
+      split at hmm
+      · rename_i slots hso
+        have := slotsOf_length _ _ hso
+        split at hmm
+        · simp at hmm
+        · omega
+      · simp at hmm
+
+/-- the positive form over the IR: whatever is accepted, a `Swizzle` node built by a member access has at most four slots
+    and its type is one a declaration can spell — the scalar itself or a vector of 2, 3 or 4 components -/
+theorem elab_swizzle_at_most_four {Γ : Env} {dbg : Bool} {e : SExpr} {name : String} {o : IExpr} {slots : List Nat} {τ : ETy}
+    (h : elabE dbg Γ (.member e name) = .ok (.swizzle o slots, τ)) :
+    slots ≠ [] ∧ slots.length ≤ 4 ∧
+      ∃ s, τ.ty.layer = .scalar s ∨ ∃ n, 2 ≤ n ∧ n ≤ 4 ∧ τ.ty.layer = .vector s n := by
+  have ht := elab_sound h
+  have key : ∀ (s : Scalar), slots ≠ [] → slots.length ≤ 4 →
+      swizzleLayer s slots.length = .scalar s ∨ ∃ n, 2 ≤ n ∧ n ≤ 4 ∧ swizzleLayer s slots.length = .vector s n := by
+    intro s hne h4
+    unfold swizzleLayer
+    split
+    · exact Or.inl rfl
+    · refine Or.inr ⟨slots.length, ?_, h4, rfl⟩
+      have : slots.length ≠ 0 := by intro h0; exact hne (List.length_eq_zero_iff.mp h0)
+      omega
+  cases ht with
+  | swizzleS he hl hne h4 hb => exact ⟨hne, h4, _, key _ hne h4⟩
+  | swizzleV he hl hne h4 hb => exact ⟨hne, h4, _, key _ hne h4⟩
+
+/-- `float4 v0; float v1;` -/
+def swzEnv : Env := { vars := [⟨{}, .vector .float32 4⟩, ⟨{}, .scalar .float32⟩], funcs := [] }
+
+def swzRejects (k : String) (e : SExpr) : Bool :=
+  match elabE true swzEnv e with
+  | .error (.reject k') => k == k'
+  | _ => false
+
+/-- the former witness `v0.xyzwx` and `v1.rrrrr` are `InvalidSwizzle` now; a character that is no slot is reported first
+    (`TypeDoesNotHaveMembers` comes from the loop, before the length test) -/
+example : (swzRejects "InvalidSwizzle" (.member (.var 0) "xyzwx") && swzRejects "InvalidSwizzle" (.member (.var 1) "rrrrr") &&
+    swzRejects "TypeDoesNotHaveMembers" (.member (.var 1) "rrrrq") &&
+    swzRejects "InvalidSwizzle" (.member (.member (.var 0) "xyxy") "wzyxw")) = true := by decide
+example : (match elabE true swzEnv (.member (.var 0) "wzyx") with
+     | .ok (.swizzle (.var 0) [3, 2, 1, 0], τ) => decide (τ = ⟨⟨{}, .vector .float32 4⟩, .lvalue⟩)
+     | _ => false) = true := by decide
+example : (match elabE true swzEnv (.member (.var 1) "rrrr") with
+     | .ok (.swizzle (.var 1) [0, 0, 0, 0], τ) => decide (τ = ⟨⟨{}, .vector .float32 4⟩, .rvalue⟩)
      | _ => false) = true := by decide
 
 /-! ## writes through projection chains -/
@@ -930,17 +996,18 @@ theorem resource_element_constness :
 
 /-- a typed swizzle selects at least one component, and only components its operand has -/
 theorem swizzle_in_range {Γ : Env} {e : IExpr} {slots : List Nat} {τ : ETy} (h : HasType Γ (.swizzle e slots) τ) :
-    ∃ te, HasType Γ e te ∧ slots ≠ [] ∧
+    ∃ te, HasType Γ e te ∧ slots ≠ [] ∧ slots.length ≤ 4 ∧
       ((∃ s, te.ty.layer = .scalar s ∧ ∀ k ∈ slots, k < 1) ∨ (∃ s n, te.ty.layer = .vector s n ∧ ∀ k ∈ slots, k < n)) := by
   cases h with
-  | swizzleS he hl hn hb => exact ⟨_, he, hn, Or.inl ⟨_, hl, hb⟩⟩
-  | swizzleV he hl hn hb => exact ⟨_, he, hn, Or.inr ⟨_, _, hl, hb⟩⟩
+  | swizzleS he hl hn h4 hb => exact ⟨_, he, hn, h4, Or.inl ⟨_, hl, hb⟩⟩
+  | swizzleV he hl hn h4 hb => exact ⟨_, he, hn, h4, Or.inr ⟨_, _, hl, hb⟩⟩
 
 theorem matrix_swizzle_in_range {Γ : Env} {e : IExpr} {slots : List (Nat × Nat)} {τ : ETy}
     (h : HasType Γ (.mswizzle e slots) τ) :
-    ∃ te s x y, HasType Γ e te ∧ te.ty.layer = .matrix s x y ∧ slots ≠ [] ∧ ∀ k ∈ slots, k.1 < x ∧ k.2 < y := by
+    ∃ te s x y, HasType Γ e te ∧ te.ty.layer = .matrix s x y ∧ slots ≠ [] ∧ slots.length ≤ 4 ∧
+      ∀ k ∈ slots, k.1 < x ∧ k.2 < y := by
   cases h with
-  | mswizzle he hl hn hb => exact ⟨_, _, _, _, he, hl, hn, hb⟩
+  | mswizzle he hl hn h4 hb => exact ⟨_, _, _, _, he, hl, hn, h4, hb⟩
 
 /-- a typed struct member is taken from a value of that struct, and the member exists -/
 theorem member_of_struct {Γ : Env} {e : IExpr} {sid idx : Nat} {τ : ETy} (h : HasType Γ (.member e sid idx) τ) :
